@@ -907,12 +907,15 @@ def eval_vector_process(v, fixdir, hashseed='0', cwd=None):
     return classify(v['tool'], v['args'], res, outfile=outfile, group=v.get('group', '')), res
 
 
-def replay_vector(tool, args, stdin=''):
+def replay_vector(tool, args, stdin='', key=None):
     """fresh fixtures, fresh process; True iff the outcome is one the property allows"""
     with tempfile.TemporaryDirectory() as d:
         make_fixtures(d)
         os.makedirs(os.path.join(d, 'out'), exist_ok=True)
-        bad, res = eval_vector_process({'tool': tool, 'args': args, 'stdin': stdin}, d)
+        group = key.split(':')[2] if key and key.startswith('success-without-formula:') and key.count(':') >= 2 else ''
+        bad, res = eval_vector_process({'tool': tool, 'args': args, 'stdin': stdin, 'group': group}, d)
         if bad:
             print('  ', bad[0], '::', bad[1])
+        if key is not None:
+            return bad is None or bad[0] != key
         return bad is None
